@@ -56,7 +56,7 @@ claim("C12", "E1", "exploration",
       "content tokens are a fixed list of 13 hostile strings; the syslog accounter needs a syslog socket and is not exercised", "3/C12")
 claim("C13", "E1", "exploration",
       "bounded-exhaustive enumeration of (configuration, address) pairs on the real loader lookup and the full server against a reference admission model",
-      "All ordered selections of 1-3 of 5 overlapping scopes x 4 deny lists x 3 allow lists, queried with every boundary address of every prefix in IPv4, IPv6 and IPv4-mapped form and a non-TCP address: the real Loader.Get must agree with the model on refuse/serve and on the bound key; "
+      "All ordered selections of 1-3 of 5 overlapping scopes x 5 deny lists x 4 allow lists (one of each spells an IPv4 prefix in IPv4-mapped form), queried with every boundary address of every prefix in IPv4, IPv6 and IPv4-mapped form and a non-TCP address: the real Loader.Get must agree with the model on refuse/serve and on the bound key; "
       "through the full server a refused connection sees Close with no bytes and no handler, a served one is answered under the bound scope's key, users of other scopes do not exist, and a name configured in every scope with a different credential logs in with the bound scope's credential only; lookups for two addresses in flight at once (controlled scheduler) each get their own verdict.",
       "prefix shapes outside the five scopes and the listed filters are not explored", "3/C13")
 claim("C07", "E3", "model_checking",
@@ -85,11 +85,11 @@ claim("C16", "E1", "exploration",
 claim("C09", "E3", "model_checking",
       "exhaustive enumeration of packet interleavings of session scripts (one connection, and two connections sharing a session id) with a differential oracle",
       "Every order-preserving interleaving of every ordered pair of 12 session scripts (and of sets of triples) is executed on the real reference server, multiplexed on one connection and spread over two connections that reuse the same session id; "
-      "each session's transcript of raw reply headers and decoded bodies must equal the transcript of the same script alone on a fresh server. Additionally every pair of 7 scripts (two of them on a connection of the other scope) runs on two concurrent connection goroutines under the controlled scheduler (engine E2), all schedules with at most 1 (quick) / 2 (thorough) deviations.",
+      "each session's transcript of raw reply headers and decoded bodies must equal the transcript of the same script alone on a fresh server; four logins are also run with 70 (300) other sessions between their packets, sessions that complete and logins that are left waiting at their prompt. Additionally every pair of 7 scripts (two of them on a connection of the other scope) runs on two concurrent connection goroutines under the controlled scheduler (engine E2), all schedules with at most 1 (quick) / 2 (thorough) deviations.",
       "scripts are fixed packet lists; more than three simultaneous sessions are not explored", "3/C09")
 claim("C15", "E2", "model_checking",
       "stateless deviation-bounded exploration of goroutine interleavings of the instrumented real code under a controlled scheduler, with a per-schedule happens-before race oracle (Go race detector blinded to the scheduler)",
-      "Twenty-two harnesses (concurrent connections on shared policy data, accept loop with opening/closing/refused connections, lookups concurrent with reloads, a consumer of a published configuration concurrent with the next load, the loader's update loop polling the real file-loader object while the next document is loaded, multiplexed sessions, cancellation during serving, cancellation racing the next requests of an idle connection with a pending session, two concurrent logins of one user with different passwords, a multi-scope user whose rule slices have spare capacity, a reload introducing new command patterns during a command authorization, one key slice shared by every connection, a lookup held in the secret store across a reload, two clients using a wrong key, accounting through the default file sink - at /dev/full and at a scratch file - while the virtual clock ticks) run the real sync/goroutine/channel/timer code on a cooperative scheduler with a virtual clock; "
+      "Twenty-three harnesses (concurrent connections on shared policy data, two concurrent command authorizations of a user whose rules were merged from groups into a slice with spare capacity, accept loop with opening/closing/refused connections, lookups concurrent with reloads, a consumer of a published configuration concurrent with the next load, the loader's update loop polling the real file-loader object while the next document is loaded, multiplexed sessions, cancellation during serving, cancellation racing the next requests of an idle connection with a pending session, two concurrent logins of one user with different passwords, a multi-scope user whose rule slices have spare capacity, a reload introducing new command patterns during a command authorization, one key slice shared by every connection, a lookup held in the secret store across a reload, two clients using a wrong key, accounting through the default file sink - at /dev/full and at a scratch file - while the virtual clock ticks) run the real sync/goroutine/channel/timer code on a cooperative scheduler with a virtual clock; "
       "every schedule with at most 1 (quick) / 2 (thorough) deviations is executed under -race. A race report, a lookup that observes a mixture of two configurations, a published configuration that changes, a deadlock or a wrong reply is a violation.",
       "schedules with more deviations than the bound and code not reached by the harnesses are not covered; ThreadSanitizer treats the prometheus atomics as synchronisation, so statement-level points are inserted where handlers touch shared policy data (types.go TrimSpace, stringy evaluate, loader.updates)", "3/C15")
 claim("C17", "E2", "model_checking",
